@@ -335,30 +335,85 @@ func (r *Run) c01OrderedInsertion() {
 			s = strings.ReplaceAll(s, "network.NNode", "T")
 			return s
 		}
-		Instrs(fn, func(b *ssa.BasicBlock, _ int, in ssa.Instruction) {
-			switch x := in.(type) {
-			case *ssa.If:
-				out = append(out, fmt.Sprintf("b%d if %s -> b%d b%d", b.Index, norm(tm.Of(x.Cond).String()), b.Succs[0].Index, b.Succs[1].Index))
-			case *ssa.Return:
-				var a []string
-				for _, v := range x.Results {
-					a = append(a, norm(tm.Of(v).String()))
+		T := func(v ssa.Value) string { return CanonTermWith(tm.Of(v), norm) }
+		// conditions in positive canonical form (operands ordered, complements removed); the blocks are then
+		// numbered in depth-first order over the successors as the canonical condition orders them, so that
+		// `a >= b` / `b <= a` / `!(a < b)` with exchanged branches are the same step
+		succs := map[*ssa.BasicBlock][]*ssa.BasicBlock{}
+		cond := map[*ssa.BasicBlock]string{}
+		for _, b := range fn.Blocks {
+			sc := append([]*ssa.BasicBlock(nil), b.Succs...)
+			if iff, ok := b.Instrs[len(b.Instrs)-1].(*ssa.If); ok {
+				c, neg := CanonCondWith(tm.Of(iff.Cond), norm)
+				if neg {
+					sc[0], sc[1] = sc[1], sc[0]
 				}
-				out = append(out, fmt.Sprintf("b%d return %s", b.Index, strings.Join(a, ",")))
-			case *ssa.Store:
-				out = append(out, fmt.Sprintf("b%d store %s := %s", b.Index, norm(tm.Of(x.Addr).String()), norm(tm.Of(x.Val).String())))
-			case ssa.CallInstruction:
-				n, _ := calleeName(x.Common())
-				if n == "dyn" || strings.HasPrefix(n, "fmt.") {
-					return // logging
-				}
-				var a []string
-				for _, v := range x.Common().Args {
-					a = append(a, norm(tm.Of(v).String()))
-				}
-				out = append(out, fmt.Sprintf("b%d call %s(%s)", b.Index, n, strings.Join(a, ",")))
+				cond[b] = c
 			}
-		})
+			succs[b] = sc
+		}
+		num := map[*ssa.BasicBlock]int{}
+		var order []*ssa.BasicBlock
+		var dfs func(b *ssa.BasicBlock)
+		dfs = func(b *ssa.BasicBlock) {
+			if _, ok := num[b]; ok {
+				return
+			}
+			num[b] = len(order)
+			order = append(order, b)
+			for _, s := range succs[b] {
+				dfs(s)
+			}
+		}
+		if len(fn.Blocks) > 0 {
+			dfs(fn.Blocks[0])
+		}
+		for _, b := range order {
+			for _, in := range b.Instrs {
+				switch x := in.(type) {
+				case *ssa.Phi:
+					// which value arrives over which edge (a negated test with the branches left in place shows here)
+					var a []string
+					for i, e := range x.Edges {
+						a = append(a, fmt.Sprintf("b%d:%s", num[b.Preds[i]], T(e)))
+					}
+					sort.Strings(a)
+					out = append(out, fmt.Sprintf("b%d phi {%s}", num[b], strings.Join(a, " ")))
+				case *ssa.Slice:
+					lo, hi := "", ""
+					if x.Low != nil {
+						lo = T(x.Low)
+					}
+					if x.High != nil {
+						hi = T(x.High)
+					}
+					if lo == "0" {
+						lo = ""
+					}
+					out = append(out, fmt.Sprintf("b%d slice %s[%s:%s]", num[b], T(x.X), lo, hi))
+				case *ssa.If:
+					out = append(out, fmt.Sprintf("b%d if %s -> b%d b%d", num[b], cond[b], num[succs[b][0]], num[succs[b][1]]))
+				case *ssa.Return:
+					var a []string
+					for _, v := range x.Results {
+						a = append(a, T(v))
+					}
+					out = append(out, fmt.Sprintf("b%d return %s", num[b], strings.Join(a, ",")))
+				case *ssa.Store:
+					out = append(out, fmt.Sprintf("b%d store %s := %s", num[b], T(x.Addr), T(x.Val)))
+				case ssa.CallInstruction:
+					n, _ := calleeName(x.Common())
+					if n == "dyn" || strings.HasPrefix(n, "fmt.") {
+						continue // logging
+					}
+					var a []string
+					for _, v := range x.Common().Args {
+						a = append(a, T(v))
+					}
+					out = append(out, fmt.Sprintf("b%d call %s(%s)", num[b], n, strings.Join(a, ",")))
+				}
+			}
+		}
 		return out
 	}
 	a, b := canon(gi), canon(ni)
@@ -392,8 +447,7 @@ func (r *Run) c01OrderedInsertion() {
 				case isParamIdx(alt, 0):
 					nilGuard := false
 					for _, g := range Guards(blk) {
-						gt := tm.Of(g.Cond)
-						if gt.Op == "bin" && gt.Name == "==" && g.True && isParamIdx(gt.Args[0], 1) && gt.Args[1].Op == "nil" {
+						if GuardNilness(g, func(v ssa.Value) bool { return isParamIdx(tm.Of(v), 1) }) > 0 {
 							nilGuard = true
 						}
 					}
